@@ -59,6 +59,44 @@ class Ctx:
         return quick if self.tier == "quick" else thorough
 
 
+def install_cache_guard():
+    """Every jx.integrate call compiles fresh XLA executables (~150 memory maps each); a long
+    run exhausts vm.max_map_count (65530) and LLVM dies with 'Cannot allocate memory'.  The
+    guard drops JAX's compilation caches between top-level calls when the process holds
+    too many maps.  (Machinery only: results are unaffected.)"""
+    try:
+        import gc
+        import jax
+        import jaxley
+        from jax._src import core as _core
+    except Exception:
+        return
+    if getattr(jaxley.integrate, "_verif_guard", False):
+        return
+    orig = jaxley.integrate
+    state = {"n": 0}
+
+    def nmaps():
+        try:
+            with open("/proc/self/maps") as f:
+                return sum(1 for _ in f)
+        except OSError:
+            return 0
+
+    def integrate(*a, **k):
+        out = orig(*a, **k)
+        state["n"] += 1
+        try:
+            if state["n"] % 20 == 0 and _core.trace_state_clean() and nmaps() > 25000:
+                jax.clear_caches()
+                gc.collect()
+        except Exception:
+            pass
+        return out
+    integrate._verif_guard = True
+    jaxley.integrate = integrate
+
+
 def sh(cmd, cwd=None, timeout=None, env=None):
     p = subprocess.run(cmd, cwd=cwd, timeout=timeout, env=env or ENV, shell=isinstance(cmd, str),
                        stdout=subprocess.PIPE, stderr=subprocess.STDOUT, text=True)
@@ -253,6 +291,7 @@ def main():
     ctx.proof_ok = proof_ok
 
     # the tie to the code / direct predicate / search
+    install_cache_guard()
     try:
         res = mod.run(ctx)
     except Exception as ex:
